@@ -346,5 +346,177 @@ example : ¬ FreshSnapshot (stateOf wPinThenCompact).k 4 0 := by
   intro h
   exact absurd h.1 (by decide)
 
+/-! ### exactness of a compaction commit whose plan is fresh -/
+
+theorem applyOps_dels_eq (t n : Nat) : ∀ (dels : List Key) (s : Snap),
+    (∀ d ∈ dels, d.1 = t ∧ d ≠ (t, n)) → (t, n) ∈ s.rs →
+    applyOps s (dels.map Op.del) = some { s with rs := s.rs.filter (fun x => !dels.contains x) }
+  | [], s, _, _ => by
+      have ft : ∀ l : List Key, l.filter (fun _ => true) = l := by
+        intro l; induction l <;> simp_all
+      cases s
+      simp [applyOps, ft]
+  | d :: r, s, hd, hm => by
+      simp only [List.map_cons, applyOps, applyOp]
+      have h1 := hd d List.mem_cons_self
+      have hany : (s.rs.any fun x => x.1 == d.1) = true := by
+        apply List.any_eq_true.mpr
+        exact ⟨(t, n), hm, by simp [h1.1]⟩
+      simp only [hany, if_true]
+      rw [applyOps_dels_eq t n r]
+      · simp only [List.filter_filter]
+        congr 2
+        apply List.filter_congr
+        intro x _
+        simp only [List.contains_cons, Bool.not_or, bne, Bool.and_comm]
+      · intro x hx; exact hd x (List.mem_cons_of_mem _ hx)
+      · apply List.mem_filter.mpr
+        refine ⟨hm, ?_⟩
+        simp only [bne_iff_ne, ne_eq]
+        exact fun hh => h1.2 hh.symm
+
+theorem addKeys_dels : ∀ (l : List Key), addKeys (l.map Op.del) = []
+  | [] => rfl
+  | _ :: r => by simpa [addKeys] using addKeys_dels r
+
+theorem mem_insertSorted {k x : Key} : ∀ {l : List Key}, x ∈ insertSorted k l ↔ x = k ∨ x ∈ l
+  | [] => by simp [insertSorted]
+  | y :: r => by
+      simp only [insertSorted]
+      split
+      · simp
+      · simp only [List.mem_cons, mem_insertSorted (l := r)]
+        constructor
+        · rintro (h | h | h)
+          · exact Or.inr (Or.inl h)
+          · exact Or.inl h
+          · exact Or.inr (Or.inr h)
+        · rintro (h | h | h)
+          · exact Or.inr (Or.inl h)
+          · exact Or.inl h
+          · exact Or.inr (Or.inr h)
+
+theorem mem_sortKeys {x : Key} : ∀ {l : List Key}, x ∈ sortKeys l ↔ x ∈ l
+  | [] => by simp [sortKeys]
+  | y :: r => by
+      simp only [sortKeys, mem_insertSorted, mem_sortKeys (l := r), List.mem_cons]
+
+/-- A compaction commit whose plan was made from the CURRENT snapshot (that is what
+`FreshSnapshot` gives, `fresh_plan_eq`): all row-sets `sel` of table `t`, merged live rows
+`rows` (non-empty), new id reserved, no delete vector names the new id.  Afterwards table `t`
+consists of exactly the merged rows — nothing lost, nothing resurrected — and every other table
+is unchanged. -/
+theorem compaction_commit_exact {k k1 k2 : K} (h : KInv k) {th : Tid} {t n : Nat}
+    {sel : List Key} {rows : List Int}
+    (hplan : compactPlan? k k.epoch t = some (some (sel, rows)))
+    (hnodv : deadPos (k.status k.epoch) (t, n) = [])
+    (hA : kCommitA k th (.add (t, n) rows :: sel.map Op.del) = some k1)
+    (hB : kCommitB k1 th = some k2) :
+    curRows k2 t = some rows ∧ ∀ t', t' ≠ t → curRows k2 t' = curRows k t' := by
+  obtain ⟨snap', hsnap, hok, he, hst, hpool⟩ := commit_result hA hB
+  -- the plan: sel = all keys of t, sorted
+  simp only [compactPlan?] at hplan
+  split at hplan
+  · cases hplan
+  split at hplan
+  · rename_i l hl
+    simp only [Option.some.injEq, Prod.mk.injEq] at hplan
+    obtain ⟨hsel, hrows⟩ := hplan
+    have hresv : (th, (t, n)) ∈ k.resv := opsOk_add hok (by simp [addKeys])
+    have hnew_not_in : (t, n) ∉ (k.status k.epoch).rs :=
+      h.resv_status _ hresv k.epoch (Nat.le_refl _)
+    have hselmem : ∀ x, x ∈ sel ↔ (x ∈ (k.status k.epoch).rs ∧ x.1 = t) := by
+      intro x
+      rw [← hsel, mem_sortKeys]
+      simp [tableKeys, List.mem_filter]
+    have hd : ∀ d ∈ sel, d.1 = t ∧ d ≠ (t, n) := by
+      intro d hdm
+      have := (hselmem d).mp hdm
+      exact ⟨this.2, fun heq => hnew_not_in (heq ▸ this.1)⟩
+    -- the snapshot after phase A
+    have hs' : snap' = { rs := ((t, n) :: (k.status k.epoch).rs).filter (fun x => !sel.contains x),
+                         dvs := (k.status k.epoch).dvs } := by
+      simp only [applyOps, applyOp] at hsnap
+      rw [applyOps_dels_eq t n sel _ hd List.mem_cons_self] at hsnap
+      cases hsnap
+      rfl
+    subst hs'
+    have hpl : ∀ key ∈ (k.status k.epoch).rs,
+        lookupPool (poolAdds (.add (t, n) rows :: sel.map Op.del) ++ k.pool) key = lookupPool k.pool key := by
+      intro key hk
+      apply lookupPool_append
+      rw [poolAdds_keys]
+      have : addKeys (.add (t, n) rows :: sel.map Op.del) = [(t, n)] := by
+        simp only [addKeys, addKeys_dels]
+      rw [this]
+      simp only [List.mem_singleton]
+      intro heq
+      exact hnew_not_in (heq ▸ hk)
+    constructor
+    · -- table t: only the new row-set
+      have htk : tableKeys { rs := ((t, n) :: (k.status k.epoch).rs).filter (fun x => !sel.contains x),
+                             dvs := (k.status k.epoch).dvs } t = [(t, n)] := by
+        have hnc : sel.contains (t, n) = false := by
+          simp only [List.contains_eq_mem, decide_eq_false_iff_not]
+          intro hm
+          exact (hd _ hm).2 rfl
+        simp only [tableKeys, List.filter_cons, hnc, Bool.not_false, if_true, beq_self_eq_true]
+        congr 1
+        apply List.filter_eq_nil_iff.mpr
+        intro x hx
+        have hx' := List.mem_filter.mp hx
+        simp only [Bool.not_eq_true', List.contains_eq_mem, decide_eq_false_iff_not] at hx'
+        intro hxt
+        simp only [beq_iff_eq] at hxt
+        exact hx'.2 ((hselmem x).mpr ⟨hx'.1, hxt⟩)
+      simp only [curRows, he, hst, hpool, rowsAt?, htk, scan?]
+      have hl : lookupPool (poolAdds (.add (t, n) rows :: sel.map Op.del) ++ k.pool) (t, n) = some rows := by
+        simp [lookupPool, poolAdds]
+      have hdp : deadPos { rs := ((t, n) :: (k.status k.epoch).rs).filter (fun x => !sel.contains x),
+                           dvs := (k.status k.epoch).dvs } (t, n) = [] := hnodv
+      simp only [hl, hdp, List.append_nil, List.map_map]
+      congr 1
+      simpa [Function.comp_def] using liveFrom_nil_vals 0 rows
+    · intro t' hne
+      have htk : tableKeys { rs := ((t, n) :: (k.status k.epoch).rs).filter (fun x => !sel.contains x),
+                             dvs := (k.status k.epoch).dvs } t' = tableKeys (k.status k.epoch) t' := by
+        have hnc : sel.contains (t, n) = false := by
+          simp only [List.contains_eq_mem, decide_eq_false_iff_not]
+          intro hm
+          exact (hd _ hm).2 rfl
+        have hbt : (t == t') = false := beq_false_of_ne (fun x => hne x.symm)
+        simp only [tableKeys, List.filter_cons, hnc, Bool.not_false, if_true, hbt,
+          Bool.false_eq_true, if_false, List.filter_filter]
+        apply List.filter_congr
+        intro x hx
+        by_cases hxt : x.1 = t'
+        · have hnm : x ∉ sel := fun hm => hne (hxt.symm.trans (hd x hm).1)
+          simp [hnm, hxt]
+        · have : (x.1 == t') = false := beq_false_of_ne hxt
+          simp [this]
+      simp only [curRows, he, hst, hpool, rowsAt?, htk]
+      have h1 := scan?_snap_congr (pool := poolAdds (.add (t, n) rows :: sel.map Op.del) ++ k.pool)
+        (s1 := { rs := ((t, n) :: (k.status k.epoch).rs).filter (fun x => !sel.contains x),
+                 dvs := (k.status k.epoch).dvs })
+        (s2 := k.status k.epoch) (fun key => rfl) (tableKeys (k.status k.epoch) t')
+      rw [h1, scan?_congr (fun key hk => hpl key (mem_tableKeys hk))]
+  · cases hplan
+
+/-- Putting it together for one compaction under the lock discipline: the compactor planned from
+the snapshot `e` it pinned at the start of the pass; if that snapshot is fresh for table `t` when
+the compaction commits, table `t` afterwards holds exactly the merged live rows of the CURRENT
+snapshot (so a DELETE committed in between is not undone and nothing is duplicated), and every
+other table is untouched. -/
+theorem compaction_fresh_exact {k k1 k2 : K} (h : KInv k) {th : Tid} {e t n : Nat}
+    {sel : List Key} {rows : List Int} (hf : FreshSnapshot k e t)
+    (hplan : compactPlan? k e t = some (some (sel, rows)))
+    (hnodv : deadPos (k.status k.epoch) (t, n) = [])
+    (hA : kCommitA k th (.add (t, n) rows :: sel.map Op.del) = some k1)
+    (hB : kCommitB k1 th = some k2) :
+    compactPlan? k k.epoch t = some (some (sel, rows))
+    ∧ curRows k2 t = some rows ∧ ∀ t', t' ≠ t → curRows k2 t' = curRows k t' := by
+  have hp : compactPlan? k k.epoch t = some (some (sel, rows)) := by rw [← fresh_plan_eq hf]; exact hplan
+  exact ⟨hp, compaction_commit_exact h hp hnodv hA hB⟩
+
 end SC
 end RlModel
